@@ -113,6 +113,18 @@ def check(F, rep, tier):
             if k == "tag_version": g = {x for x in g if x == "get_latest_tag"} or g
             if h in g and len({x for x in g if x != "get_latest_tag" or k == "tag_version"}) == 1: rep.ok("R02.3", "VcsData.%s <- %s()" % (k, h), nontrivial_key=k)
             else: rep.bad("R02.3", "producer:" + k, "VcsData.%s is produced by %s, expected %s" % (k, sorted(g), h), f.where())
+        # the facts the version cannot do without are obtained with `?`: a failing git sub-command must not be turned into
+        # "clean", "no tag" or an empty hash (instances confirmed on the pinned tree; the optional facts use unwrap_or there)
+        for h in ("get_commit_hash", "get_commit_timestamp", "is_dirty", "get_latest_tag"):
+            sites = [(bi, t) for bi, t in f.calls() if (mir.callee(t) or "").endswith(G + h)]
+            if not sites: continue
+            for bi, t in sites:
+                dest = t[3][0]
+                uses = [(mir.callee(t2) or "?") for b2, t2 in f.calls() if any(a[0] in ("cp", "mv") and a[1][0] == dest for a in t2[2])]
+                if any("Try>::branch" in u for u in uses): rep.ok("R02.3", "%s()? - a git failure is propagated" % h, nontrivial_key="prop" + h)
+                elif any(u.rsplit("::", 1)[-1].startswith(("unwrap_or", "ok", "is_ok", "is_err", "map_or")) for u in uses):
+                    rep.bad("R02.3", "error-swallowed:" + h, "the result of %s is consumed by %s: when that git sub-command fails, zerv reports a made-up fact (clean / no tag / empty) instead of failing" % (h, [u.rsplit("::", 1)[-1] for u in uses]), "%s bb%d" % (f.where(), bi))
+                else: rep.undecided("R02.3", "error-handling:" + h, "the result of %s is handled by %s, a form this rule does not evaluate" % (h, uses), "%s bb%d" % (f.where(), bi))
         # the three tag-dependent helpers receive the tag found by the search
         for h in ("calculate_distance", "get_tag_timestamp", "get_tag_commit_hash"):
             sites = [(bi, t) for bi, t in f.calls() if (mir.callee(t) or "").endswith(G + h)]
@@ -160,6 +172,20 @@ def check(F, rep, tier):
                         if shape == ["A", "^{commit}"]: rep.ok("R02.4", "tag time is read from <tag>^{commit}", nontrivial_key="peel")
                         else: rep.bad("R02.4", "tag-peel", "tag timestamp is read from %s, expected <tag>^{commit}" % (shape,), site)
         rep.floor("R02.4", "run_git_command call sites", n_sites, 10)
+        # the runner passes exactly the argv it was given: global options added here (-c core.fileMode=false, --git-dir, ...) would
+        # change the meaning of every audited command line at once
+        extra = []; n_args = 0
+        for bi, t in runner.calls():
+            c = mir.callee(t) or ""
+            if c.endswith("process::Command::args") or c.endswith("process::Command::arg"):
+                n_args += 1
+                src = mir.trace_op(runner, t[2][1])
+                if not src or not all(o.kind == "param" and o.data == 2 for o in src): extra.append("bb%d %s" % (bi, [repr(o)[:50] for o in src][:2]))
+            if c.endswith("process::Command::env") or c.endswith("process::Command::envs") or c.endswith("process::Command::env_clear"):
+                extra.append("bb%d %s" % (bi, c.rsplit("::", 1)[-1]))
+        if extra: rep.bad("R02.4", "runner-extra-args", "run_git_command adds arguments / environment of its own to every git invocation: %s" % extra, runner.where())
+        elif n_args: rep.ok("R02.4", "run_git_command passes exactly its argv parameter to git", nontrivial_key="runnerargs")
+        else: rep.undecided("R02.4", "runner-args-shape", "run_git_command does not pass its argv with Command::args", runner.where())
     # ---- R02.5 reachable-only, first hit, max by version order ----------------------------------------------------------------
     topo = F.fn(G + "get_commits_in_topo_order")
     if rep.anchor("R02.5", "GitVcs::get_commits_in_topo_order", topo):
